@@ -692,10 +692,12 @@ class Data(Field):
                     fragments.append(custom_regexp, is_literal=False)
 
             else:
+                # a regex delimiter is pasted as a group: its own top-level
+                # alternatives must not split the whole expression
                 endswith = (
                     re.escape(self.until_marker)
                     if isinstance(self.until_marker, bytes) else
-                    self.until_marker.pattern
+                    b"(?:" + self.until_marker.pattern + b")"
                 )
                 fragments.append(custom_regexp + endswith, is_literal=False)
 
